@@ -110,6 +110,13 @@ def run_traj(key):
             ref = EM.from_impl(model, m_i, shape)
             table, _ = EM.logpdf_table(model, ref, data)
             L = M.mixture_loglik(table, ref['pi'], sal)
+        except np.linalg.LinAlgError as e:
+            if model in ('gmm', 'gcacgmm'):
+                # a Gaussian class collapsed onto a numerically singular covariance: guard state
+                Ls.append(float('nan'))
+                guarded.append('gaussian covariance singular')
+                continue
+            return viol(f'{model}: state {i} cannot be evaluated: {e!r}')
         except Exception as e:  # noqa
             return viol(f'{model}: state {i} cannot be evaluated: {e!r}')
         if not np.isfinite(L):
@@ -177,7 +184,7 @@ def run_traj(key):
         flags.append('guarded_edges')
     if n_guard == n - 1:
         return trivial('every edge guarded', states=n, transitions=transitions, flags=flags)
-    return ok(outcome=tol.digest(np.array(Ls)), states=n, transitions=transitions, evals=n + 3,
+    return ok(outcome=tol.digest(np.nan_to_num(np.array(Ls))), states=n, transitions=transitions, evals=n + 3,
               flags=flags, detail=dict(L_first=Ls[0], L_last=Ls[-1], guarded_edges=n_guard), traces=1)
 
 
